@@ -132,7 +132,25 @@ def check_c05(res, tier, replay):
         l2, g2, _ = run_strats(extra, prefix='x')
         cases, lines = cases + extra, lines + l2
         go.update(g2)
-    bad = 0
+    # compound and decorated strategies over real base strategies: exactly one action per snapshot past every warm-up
+    wrapped_bad = wrapped_n = 0
+    if not replay:
+        wcases = []
+        for wname in WRAPPED:
+            for _ in range(3 if tier == 'quick' else 20):
+                o, regime = gen_ohlcv(rng, rng.randrange(12, 90), rng.choice(['walk', 'wide', 'zigzag', 'down', 'up', 'ties']))
+                wcases.append((wname, [], [], o, regime))
+        wl = ['w%d %s' % (i, strat_line(c[0], c[1], c[2], c[3])) for i, c in enumerate(wcases)]
+        wg = vlib.run_go(wl)
+        for i, c in enumerate(wcases):
+            g = parse_strat(wg.get('w%d' % i, 'missing'))
+            n = len(c[3]['c'])
+            wrapped_n += 1
+            if g['status'] != 'ok' or len(g['actions']) != n or any(a not in (-1, 0, 1) for a in g['actions']):
+                wrapped_bad += 1
+                res.violation({'case': case_json(c), 'go_output': wg.get('w%d' % i, 'missing')[:300], 'n': n,
+                               'oracle': 'a compound/decorated strategy over base strategies emits exactly one action per snapshot (n >= every warm-up)'})
+    bad = wrapped_bad
     cells = set()
     known = collections.defaultdict(int)
     short = 0
@@ -169,7 +187,7 @@ def check_c05(res, tier, replay):
         'evaluations': len(cases), 'distinct_nontrivial': len(cells),
         'rule': 'strategy x configuration x snapshot-count class (n<w, w<=n<=2w+3, longer) over the 32 base strategies (every With-constructor '
                 'parameter varied), n from {0,1,w-1,w,w+1,2w+3} and random; all regimes',
-        'cases_shorter_than_warmup': short, 'violations_found': bad, 'known_findings_seen': dict(known),
+        'cases_shorter_than_warmup': short, 'compound_and_decorated_cases': wrapped_n, 'violations_found': bad, 'known_findings_seen': dict(known),
         'traces_validated_against_impl': len(cases) - mism, 'go_vs_model_mismatches': mism, 'trusted_base': vlib.TRUSTED,
     })
     res.assumptions = ['compound and decorated strategies: C07 check (their length law is min over the wrapped streams)']
@@ -225,8 +243,19 @@ def check_c06(res, tier, replay):
     vlib.apply_obligations(res, 'C06')
     findings = load_findings('C06')
     names = [n for n in SCAT if SCAT[n]['rule'] is not None]
-    cases = replay_cases(replay) if replay else gen_strat_cases(rng, tier, names=names, per=(6 if tier == 'quick' else 40))
-    cases = [c for c in cases if len(c[3]['c']) > strat_idle(c[0], c[1])]
+    if replay:
+        cases = replay_cases(replay)
+    else:
+        # long enough series past the warm-up, half of them with independently varying high/low/open
+        cases = []
+        for name in names:
+            sc = SCAT[name]
+            for j in range(12 if tier == 'quick' else 60):
+                ns, fs = (list(sc['default'][0]), list(sc['default'][1])) if j == 0 else sc['cfg'](rng, 8 if tier == 'quick' else 25)
+                ns, fs = list(ns), list(fs)
+                n = strat_idle(name, ns) + rng.randrange(15, 90)
+                o, regime = gen_ohlcv(rng, n, 'wide' if j % 2 else None)
+                cases.append((name, ns, fs, o, regime))
     lines, go, model = run_strats(cases)
     mism, comps = strat_correspondence(res, cases, lines, go, model)
     if comps and not replay:
@@ -239,6 +268,7 @@ def check_c06(res, tier, replay):
     cells = set()
     known = collections.defaultdict(int)
     decisions = collections.Counter()
+    per_strategy = collections.defaultdict(collections.Counter)
     for i, c in enumerate(cases):
         name, ns, fs, o, regime = c
         sc = SCAT[name]
@@ -275,6 +305,7 @@ def check_c06(res, tier, replay):
             want = sc['rule'](*args)
             checked += 1
             decisions[want] += 1
+            per_strategy[name][want] += 1
             if want != g['actions'][pos] and problem is None:
                 problem = {'position': pos, 'expected': want, 'go_action': g['actions'][pos], 'indicator_values': cur,
                            'previous_values': prev if sc.get('needs_prev') else None, 'snapshot': snap}
@@ -296,6 +327,7 @@ def check_c06(res, tier, replay):
                 'position past the warm-up the documented rule is evaluated on the documented indicator values (positions where the '
                 'compared quantities are within 1e-9 relative are exempt)',
         'decisions_checked': checked, 'exempt_positions': exempt, 'expected_action_mix': {str(k): v for k, v in decisions.items()},
+        'action_mix_per_strategy': {n: {str(k): v for k, v in c.items()} for n, c in per_strategy.items()},
         'violations_found': bad, 'known_findings_seen': dict(known),
         'traces_validated_against_impl': len(cases) - mism, 'go_vs_model_mismatches': mism, 'trusted_base': vlib.TRUSTED +
         ['tools/scatalog.py: transcription of the documented decision rules'],
